@@ -721,7 +721,7 @@ class FnTranslator:
             if op == 'bitcast' and (v in s.allocas or v in s.slot_alias):
                 # pointer to the same slot under another type: keep the base for the frame, no direct lvalue
                 base = s.allocas.get(v) or s.slot_alias[v][1]
-                s.slot_alias[s.lname(res)] = ('*%s' % s.lname(res), base)
+                s.slot_alias[s.lname(res)] = ('(*%s)' % s.lname(res), base)
         elif op == 'sext':
             ft = p.type(); v = s.value(p, ft); p.expect('to'); tt = p.type()
             if ft.bits == 1: setres(tt, '(%s)(%s ? -1 : 0)' % (em.ctype(tt), v))
